@@ -4,7 +4,7 @@ TIE = "corr:pe"
 TIE_THEOREM = "Relic.Props.C01 (models Relic.Model.PE vs lib/authenticode)"
 UNPROVED = ['Relic.Props.C01.vsix_sign_then_verify_full_orig (code before the repair of FV1): false, witness vsix_uri_roundtrip_gap; for the repaired code vsix_sign_then_verify holds at full strength (sign succeeds => verify accepts; refusals characterised by vsix_sign_refuses_iff), with the XML-DSig layer, encoding/xml and digests as parameters (VsixSound)', 'Relic.Props.C01.macho_sign_then_verify_full (as stated): false in the model, witness not_macho_sign_then_verify_full (an LC_SYMTAB command, which the model of debug/macho does not cover: refutes the statement, not relic); the corrected end-to-end statement is proved for every Regular image: macho_sign_then_verify_end_to_end (Props/C01_MachOFull.lean = macho_sign_then_locate: scan / PatchSignature / patch application / load-command walk over the patched header / readSigBlob, + macho_verify_of_locate: superblob and code-directory round trips, special slots, VerifyPages); the Regular hypotheses that excluded genuine defects are no longer assumed but derived from a successful Sign, which tests them since the repairs: noSlack (F-MACHO-4, bd2b0c4: regular_noSlack, macho_slack_refused; code before: macho_slack_breaks_orig) and small / oldSmall (F-MACHO-3, 5805b39 and F-MACHO-3b, e678460: regular_small = macho_region_small, macho_sign_refuses_oversize_region for both branches of PatchSignature; code before: macho_oversize_refused_orig, macho_reused_oversize_region_refused_orig); Regular is now RegularImage, no size hypothesis is left', 'Relic.Props.C01.appx_sign_then_verify_full (as stated, for arbitrary parts and some codec): false, witness not_appx_sign_then_verify_full (an empty manifest part, F7a); the statement with its real hypotheses (parts coherent with the codec, no ZIP64 extra on the regenerated parts: F-APPX-ZIP64, no *.appx member: F41, manifest not empty / block-map descriptor recognised: F7a) is proved with the same codec: appx_sign_then_verify_zip (Props/C01_AppxFull.lean, on the ZIP round trip C17.read_write_directory_own_output)']
 IMPL_PARALLEL = 16
-install(globals(), "C01", ["pe", "e2e", "cab", "ps", "jar", "apk", "xsig", "apkv", "deb", "appx", "pgp", "macho", "magic", "vsix", "ident", "xap", "msisign", "dmg", "cosign", "appxv", "xar", "csvfy"])
+install(globals(), "C01", ["pe", "e2e", "cab", "ps", "jar", "apk", "xsig", "apkv", "deb", "appx", "pgp", "macho", "magic", "vsix", "ident", "xap", "msisign", "dmg", "cosign", "appxv", "xar", "csvfy", "rpm"])
 
 # file-type detection and signer dispatch (checklib/models/magic.py): tables re-extracted from the Go source on every run
 import magic as _magic
@@ -22,3 +22,5 @@ import csvfy as _csvfy  # Apple code signatures, decision level: Relic.Props.C01
 UNPROVED += _csvfy.UNPROVED_C01
 # dmg_sign_then_verify_full, deb_sign_then_verify_full: proved (Props/C01_DmgFull.lean dmg_sign_then_verify_end_to_end, Props/C01_DebFull.lean deb_sign_then_verify_text)
 UNPROVED += ['Relic.Props.C01.xar_sign_then_verify_full (not a theorem on either tree: outside regularDoc the two XML readers disagree - a <file> with two <data> children, a number spelled " 5" - so etree shifts another element / value than encoding/xml reads; since 5d6eee4 Sign itself refuses members without <archived-checksum> and members in front of the old signature area (xar_sign_refuses_bad_layouts, xar_sign_refusal_is_clean), so xar_sign_then_verify needs neither hypothesis any more; the tree before: xar_sign_then_verify_orig)']
+import rpm as _rpm  # RPM signer (checklib/models/rpm.py; lean/Relic/Props/C01_Rpm.lean)
+UNPROVED = list(UNPROVED) + _rpm.UNPROVED["C01"]
